@@ -208,12 +208,25 @@ def run(ctx: Any, prog: Program) -> None:
     for wname, wfn in bsp.methods('BSP').items():
         if not wname.startswith('_lmp_write'):
             continue
+        lookups: List[Tuple[ast.Assign, str, ast.AST, List[ast.stmt]]] = []        # (lookup statement, table, key, statements run on a miss)
         for tr in [t for t in ast.walk(wfn) if isinstance(t, ast.Try) and len(t.handlers) == 1 and dotted(t.handlers[0].type) == 'KeyError']:
-            look = [a for a in tr.body if isinstance(a, ast.Assign) and isinstance(a.value, ast.Subscript) and isinstance(a.value.value, ast.Name)]
-            if len(look) != 1:
-                continue
-            table, key = look[0].value.value.id, look[0].value.slice
-            packs = [c for st in tr.handlers[0].body for c in ast.walk(st) if isinstance(c, ast.Call) and (dotted(c.func) or '').endswith('pack')]
+            look_ = [a for a in tr.body if isinstance(a, ast.Assign) and isinstance(a.value, ast.Subscript) and isinstance(a.value.value, ast.Name)]
+            if len(look_) == 1:
+                lookups.append((look_[0], look_[0].value.value.id, look_[0].value.slice, tr.handlers[0].body))
+        # the same table consulted as `ind = table.get(key)` / `if ind is None:`
+        for blk_owner in ast.walk(wfn):
+            for fld in ('body', 'orelse', 'finalbody'):
+                blk = getattr(blk_owner, fld, None)
+                if not isinstance(blk, list):
+                    continue
+                for a, nxt in zip(blk, blk[1:]):
+                    if isinstance(a, ast.Assign) and len(a.targets) == 1 and isinstance(a.targets[0], ast.Name) and isinstance(a.value, ast.Call) and isinstance(a.value.func, ast.Attribute) and a.value.func.attr == 'get' \
+                            and isinstance(a.value.func.value, ast.Name) and len(a.value.args) == 1 and isinstance(nxt, ast.If) and isinstance(nxt.test, ast.Compare) and dotted(nxt.test.left) == a.targets[0].id \
+                            and isinstance(nxt.test.ops[0], ast.Is) and isinstance(nxt.test.comparators[0], ast.Constant) and nxt.test.comparators[0].value is None:
+                        lookups.append((a, a.value.func.value.id, a.value.args[0], nxt.body))
+        for look0, table, key, miss_body in lookups:
+            look = [look0]
+            packs = [c for st in miss_body for c in ast.walk(st) if isinstance(c, ast.Call) and (dotted(c.func) or '').endswith('pack')]
             if not packs:
                 continue
             # the object whose fields are packed
@@ -730,6 +743,8 @@ def run(ctx: Any, prog: Program) -> None:
 
 
 MUTANTS = [
+    {'id': 'texdata_get_form_keyed_by_material', 'file': 'bsp.py', 'find': "            try:\n                ind = texdata_ind[tdat]\n            except KeyError:\n                ind = texdata_ind[tdat] = next_ind", 'replace': "            mat_key = tdat.mat.casefold()\n            ind = texdata_ind.get(mat_key)\n            if ind is None:\n                ind = texdata_ind[mat_key] = next_ind", 'expect': 'C11.L19'},
+    {'id': 'ok_texdata_get_form', 'file': 'bsp.py', 'find': "            try:\n                ind = texdata_ind[tdat]\n            except KeyError:\n                ind = texdata_ind[tdat] = next_ind", 'replace': "            ind = texdata_ind.get(tdat)\n            if ind is None:\n                ind = texdata_ind[tdat] = next_ind", 'expect': None},
     {'id': 'prop_leaf_width_by_prop_version', 'file': 'bsp.py', 'find': "        prop_lump.write(write_array(self.lump_layout['STATICPROPLEAF'], leaf_array))", 'replace': "        prop_lump.write(write_array(self.lump_layout['STATICPROPLEAF'] if vers_num >= 12 else '<H', leaf_array))", 'expect': 'C11.L20'},
     {'id': 'prop_model_names_casefolded', 'file': 'bsp.py', 'find': "        add_model = find_or_insert(model_list, identity)\n", 'replace': "        add_model = find_or_insert(model_list, str.casefold)\n", 'expect': 'C11.L19'},
     {'id': 'ok_prop_model_names_lambda_identity', 'file': 'bsp.py', 'find': "        add_model = find_or_insert(model_list, identity)\n", 'replace': "        add_model = find_or_insert(model_list, lambda name: name)\n", 'expect': None},
